@@ -769,6 +769,160 @@ theorem capsOk_reach {s : State} (h : Reach s) : CapsOk (caps s.chunks) s.nexp :
   | init => exact capsOk_nil
   | step hr st ih => exact capsOk_step (inv_reach hr).wf ih st
 
+/-! ### consequences used by the property statements -/
+
+theorem tls_preserved_step {s s' : State} {op : Op} {out : Out} {t k i : Nat}
+    (st : step s op = some (s', out)) (hl : s.tls t = some (k, i))
+    (h1 : op ≠ .unregister t) (h2 : ∀ u, op = .prune u → u = t) : s'.tls t = some (k, i) := by
+  cases op with
+  | register u g =>
+    simp only [step] at st
+    split at st
+    · simp at st
+    · next hu =>
+      split at st
+      · split at st
+        · simp at st
+        · simp only [Option.some.injEq, Prod.mk.injEq] at st
+          obtain ⟨rfl, -⟩ := st
+          have : t ≠ u := fun h => by subst h; simp [hl] at hu
+          simp [upd, this, hl]
+      · simp at st
+  | unregister u =>
+    simp only [step] at st
+    split at st
+    · simp at st
+    · simp only [Option.some.injEq, Prod.mk.injEq] at st
+      obtain ⟨rfl, -⟩ := st
+      have : t ≠ u := fun h => h1 (by rw [h])
+      simp [upd, this, hl]
+  | prune u =>
+    simp only [step, Option.some.injEq, Prod.mk.injEq] at st
+    obtain ⟨rfl, -⟩ := st
+    have := h2 u rfl
+    subst this
+    simp [hl]
+  | libInit =>
+    simp only [step, Option.some.injEq, Prod.mk.injEq] at st
+    obtain ⟨rfl, -⟩ := st
+    exact hl
+  | libExit =>
+    simp only [step] at st
+    split at st
+    · split at st <;> simp only [Option.some.injEq, Prod.mk.injEq] at st <;> obtain ⟨rfl, -⟩ := st <;> exact hl
+    · simp at st
+
+/-- what `register` returns, in terms of the state before the call -/
+theorem register_spec {s s' : State} {t : Nat} {g : Growth} {k i : Nat} {gr : Grew} (h : Inv s)
+    (st : step s (.register t g) = some (s', .slot k i gr)) :
+    slotAt s.chunks k i = none ∧
+    (gr = .no → ∃ c, s.chunks[k]? = some c ∧ c.slots[i]? = some none ∧
+        (∀ j, j < i → ∃ u, c.slots[j]? = some (some u)) ∧
+        ∀ k' c', k' < k → s.chunks[k']? = some c' → ∀ x ∈ c'.slots, x.isSome = true) ∧
+    (gr ≠ .no → ∀ c ∈ s.chunks, ∀ x ∈ c.slots, x.isSome = true) := by
+  simp only [step] at st
+  split at st
+  · simp at st
+  · split at st
+    · split at st
+      · simp at st
+      · next cs k' i' gr' ha =>
+        simp only [Option.some.injEq, Prod.mk.injEq, Out.slot.injEq] at st
+        obtain ⟨-, rfl, rfl, rfl⟩ := st
+        obtain ⟨-, hsame, ⟨c, hk, hi⟩, hno, hgr⟩ := arenaAlloc_spec h.wf ha
+        refine ⟨by rw [← hsame]; exact slotAt_none_of_free hk hi, ?_, ?_⟩
+        · intro hg
+          subst hg
+          have := hno rfl
+          subst this
+          unfold arenaAlloc at ha
+          split at ha
+          · next sl hsl =>
+            simp only [Option.some.injEq, Prod.mk.injEq] at ha
+            obtain ⟨-, rfl, -⟩ := ha
+            obtain ⟨-, c, h2, h3, h4, h5⟩ := scan_some h.wf hsl
+            exact ⟨c, by simpa using h2, h3, h4, fun k' c' hk' => h5 k' c' (by simpa using hk')⟩
+          · next hnone =>
+            exfalso
+            cases he : expand s.chunks g with
+            | mk cs1 g1 =>
+              rw [he] at ha
+              simp only at ha
+              split at ha
+              · simp only [Option.some.injEq, Prod.mk.injEq] at ha
+                obtain ⟨-, -, rfl⟩ := ha
+                rcases nil_or_snoc s.chunks with hnil | ⟨l, c0, hsn⟩
+                · rw [hnil, expand_nil] at he; cases he
+                · rw [hsn, expand_snoc] at he; cases g <;> simp at he
+              · simp at ha
+        · intro hg
+          exact scan_none h.wf (hgr hg).2
+    · simp at st
+
+theorem exists_free_of_scan {cs : List Chunk} (hwf : ∀ c ∈ cs, c.WF) {c : Chunk} (hc : c ∈ cs)
+    (hfree : none ∈ c.slots) : scan cs 0 ≠ none := by
+  intro hs
+  have := scan_none hwf hs c hc none hfree
+  simp at this
+
+theorem register_never_fails {s : State} (hr : Reach s) (t : Nat) (g : Growth)
+    (ht : s.tls t = none) (hg : s.registry.length < s.refcount) :
+    ∃ s' k i gr, step s (.register t g) = some (s', .slot k i gr) := by
+  have I := inv_reach hr
+  have C := capsOk_reach hr
+  have key : ∃ r, arenaAlloc s.chunks g = some r := by
+    unfold arenaAlloc
+    split
+    · exact ⟨_, rfl⟩
+    · next hnone =>
+      have hw := expand_wf I.wf g
+      cases he : expand s.chunks g with
+      | mk cs1 g1 =>
+        rw [he] at hw
+        simp only at hw ⊢
+        have : scan cs1 0 ≠ none := by
+          rcases nil_or_snoc s.chunks with hnil | ⟨l, c, hsn⟩
+          · rw [hnil, expand_nil] at he
+            cases he
+            apply exists_free_of_scan hw (c := Chunk.fresh INIT_READER_COUNT) (by simp)
+            simp only [Chunk.fresh, List.mem_replicate]
+            exact ⟨Nat.ne_of_gt init_reader_count_pos, trivial⟩
+          · have hcap : 0 < c.cap := by
+              obtain ⟨e, -, hx⟩ := C.pow c.cap (by simp [caps, hsn])
+              rw [hx]; exact Nat.mul_pos init_reader_count_pos (Nat.pow_pos (by decide))
+            rw [hsn, expand_snoc] at he
+            cases g with
+            | inPlace =>
+              cases he
+              apply exists_free_of_scan hw (c := c.grow) (by simp)
+              simp only [Chunk.grow, List.mem_append, List.mem_replicate]
+              right; exact ⟨by omega, trivial⟩
+            | newChunk =>
+              cases he
+              apply exists_free_of_scan hw (c := Chunk.fresh (c.cap * 2)) (by simp)
+              simp only [Chunk.fresh, List.mem_replicate]
+              exact ⟨by omega, trivial⟩
+        cases hs : scan cs1 0 with
+        | none => exact absurd hs this
+        | some sl => exact ⟨_, rfl⟩
+  obtain ⟨⟨cs, ⟨k, i⟩, gr⟩, hk⟩ := key
+  simp only [step, ht, hg, if_true, hk]
+  exact ⟨_, k, i, gr, rfl⟩
+
+theorem eq_singleton_of_nodup {α} {l : List α} {a : α} (hn : l.Nodup) (h : ∀ x, x ∈ l ↔ x = a) :
+    l = [a] := by
+  cases l with
+  | nil => have := (h a).mpr rfl; simp at this
+  | cons b r =>
+    have hb : b = a := (h b).mp (by simp)
+    subst hb
+    have hr : r = [] := by
+      apply List.eq_nil_iff_forall_not_mem.mpr
+      intro y hy
+      have := (h y).mp (by simp [hy])
+      subst this
+      exact (List.nodup_cons.mp hn).1 hy
+    rw [hr]
 end UrcuVerif.BpArena
 
 /-! ### registration versus signals -/
@@ -877,5 +1031,10 @@ theorem reach_of_run {c : Cfg} {s s' : State} {ls : List Lbl} (h : Reach c s)
     split at hr
     · simp at hr
     · next s1 h1 => exact ih (Reach.step h h1) hr
+
+theorem reach_of_run_get (c : Cfg) (ls : List Lbl) (h : (runLbls c init ls).isSome = true) :
+    Reach c ((runLbls c init ls).get h) := by
+  have hr : runLbls c init ls = some ((runLbls c init ls).get h) := by simp
+  exact reach_of_run Reach.init hr
 
 end UrcuVerif.BpArena.Sig
